@@ -19,7 +19,7 @@ LEVEL = "exploration"
 META = {
     "engine": "differential",
     "technique": "runtime monitor: history exploration (sync-event sequences with model-level edits to entities other files depend on) with a differential oracle: long-lived server vs fresh servers on the full query battery at the quiescent end state",
-    "text": "Histories of 5-40 sync events over generated multi-file workspaces (cross-file USE, derived types used across files, EXTENDS, INCLUDE, submodules) rename, add and remove modules, types, components, procedures, variables and ONLY items in one file while dependants live in others, deliver the edits as whole-document or line-wise ranged didChange streams (sometimes through broken intermediate text), and create, delete and rename files; after 'save all' the long-lived server must answer the whole battery (outline, workspace symbols, definition, hover, completion, references, signature help, diagnostics) exactly like two fresh servers (queries on which the two fresh servers disagree are skipped and counted). Sampled histories.",
+    "text": "Histories of 5-40 sync events over generated multi-file workspaces (cross-file USE, derived types used across files, EXTENDS, INCLUDE, submodules) rename, add and remove modules, types, components, procedures, variables and ONLY items in one file while dependants live in others, deliver the edits as whole-document or line-wise ranged didChange streams (sometimes through broken intermediate text), and create, delete and rename files; after 'save all' the long-lived server must answer the whole battery (outline, workspace symbols, definition, hover, completion, references, signature help, diagnostics) exactly like two fresh servers (queries on which the two fresh servers disagree are skipped and counted). Sampled histories. The first cases are scripted: every declared name of every hand-written dependency file is renamed or its declaration removed once, saved, and all identifiers queried. Edits are also delivered keystroke-like inside a line, and buffers may be closed without saving.",
     "note": "trusted: battery normalisation; equality on client-visible answers only; files created but never opened are not expected to be known; sources share no preprocessor macro names across files",
 }
 RULE = ("histories: 5-40 events from {open, close, edit(kind in rename-entity, add-entity, remove-entity, change-use, change-extends, replace-file, garbage-then-fix), "
